@@ -375,7 +375,11 @@ def rule_index_maps(rep, repo):
     fwd = repo.method("_HyperRectangleGrid", "coordinates_to_index")
     inv = repo.method("_HyperRectangleGrid", "index_to_coordinates")
     for nd in (2, 3):
+        def helper(name):
+            g = repo.resolve_method("_HyperRectangleGrid", name)
+            return g.node if g is not None and isinstance(g.node, ast.FunctionDef) and not g.is_property else None
         si = e7.SeqInterp(nd)
+        si.resolver = helper
         try:
             si.run(strip_docstring(fwd.node.body))
             if si.ret is None:
@@ -406,6 +410,7 @@ def rule_index_maps(rep, repo):
                           f"counts differ", fwd.loc())
         # inverse: divisors of the floor divisions in the branch taken for this dimensionality
         sj = e7.SeqInterp(nd)
+        sj.resolver = helper
         try:
             sj.run(strip_docstring(inv.node.body))
         except e7.SeqInterp.Undecided as e:
